@@ -227,7 +227,8 @@ def run_c06(ctx):
     base = 40 if ctx.quick else 600
     scs = {}
     rid = 0
-    outcomes = ["raise:BodyError", "raise:KeyboardInterrupt", "raise:SystemExit", "raise:ValueError", "cancel"]
+    outcomes = ["raise:BodyError", "raise:KeyboardInterrupt", "raise:SystemExit", "cancel", "cancel-subclass"] + \
+        [k for k in lc.RAISERS if k not in ("raise:BodyError", "raise:KeyboardInterrupt", "raise:SystemExit")]
     bases = []
     for i in range(base):
         sc = gen_scenario(rng, i)
